@@ -14,7 +14,7 @@ from .interp import Interp, World, PyRaise, JUMPED
 from .world import Cloner, Keyer
 from . import models as MD
 from . import prelude
-from .mdd import MDD, TRUE as MDD_TRUE, FALSE as MDD_FALSE
+from .mdd import MDD, THE as THE_MDD, TRUE as MDD_TRUE, FALSE as MDD_FALSE
 
 
 class Budget(Exception):
@@ -133,7 +133,8 @@ class Engine:
         self.timeout = timeout
         self.merge_filter = None    # optional predicate(CodeInfo) -> bool : park at loop heads of this code?
         self.progress_fn = None
-        self.mdd = MDD()
+        self.mdd = THE_MDD
+        self._pins = []
         self.solver = z3.Solver()
         self.vars = []
         self.base = []              # global assumptions (domain constraints, harness assumptions)
@@ -298,7 +299,20 @@ class Engine:
                 return [W, W2]
             W.dd = tc if tc is not MDD_FALSE else fc   # (cannot happen: truth() would have answered)
             return [W]
+        if cond.dd is not None:
+            tc = self.mdd.conj(W.dd, cond.dd)
+            fc = self.mdd.conj(W.dd, self.mdd.neg(cond.dd))
+            self.stats["unary_decisions"] += 1
+            if tc is not MDD_FALSE and fc is not MDD_FALSE:
+                W2 = self.cloner.clone_world(W)
+                self.stats["clones"] += 1
+                W.dd = tc
+                W2.dd = fc
+                return [W, W2]
+            W.dd = tc if tc is not MDD_FALSE else fc
+            return [W]
         self.stats["general_decisions"] += 1
+        self._pins.append(cond)     # keep the z3 AST alive: decided[] is keyed by its id
         g = self.guard(W)
         e = cond.e
         st, _ = self.check(g, e)
